@@ -7,6 +7,7 @@ use super::{
         list::{ListStyle, ListStylist},
     },
     style::FoldStyle,
+    util::ends_with_linebreak,
     ArenaDoc, Context, Mode, PrettyPrinter,
 };
 use crate::ext::StrExt;
@@ -22,8 +23,8 @@ impl<'a> PrettyPrinter<'a> {
             if math.to_untyped().children().len() == 0 {
                 return Option::None;
             }
-            let has_trailing_linebreak = (math.exprs().last())
-                .is_some_and(|expr| matches!(expr, Expr::Linebreak(_)))
+            // The backslash may also be the last token of a nested node, as in `$a / \ $`.
+            let has_trailing_linebreak = ends_with_linebreak(math.to_untyped())
                 && (equation.to_untyped().children().nth_back(1))
                     .is_some_and(|it| it.kind() == SyntaxKind::Space)
                 && (equation.to_untyped().children().nth_back(2))
